@@ -19,11 +19,11 @@ statement of C10 from its own hypotheses (`statement_core`): after a failed inpu
 unreachable frames, counters and log entries behind, every continuation produces the same output,
 error flag and panic kind for every input, and results equal up to the renaming.
 
-`C10.Statement` itself also compares the RENDERED result (`InputObs.val = renderValue st v`), and
-`renderValue` is a `partial def`: the kernel cannot unfold it, so no equation between
-`renderValue s (ren v)` and `renderValue t v` is provable, whatever the values.  `statement` derives
-`C10.Statement` from `statement_core` under that single hypothesis (`RenderInv`), which is what the
-`session` correspondence suite checks on the executable.
+`C10.Statement` itself also compares the RENDERED result (`InputObs.val = renderValue st v`);
+`renderValue` (lean/Grol/Eval/Sexp.lean) is a total function — structural over the value, with a bound
+of 1000 on the references followed in a row — and `renderValue_ren` shows it invariant under the
+renaming (functions render by their cache key, references as their target).  Hence
+`statement_full : C10.Statement`, without any hypothesis.
 -/
 namespace Grol.C10
 open Grol.E Grol.R
@@ -231,6 +231,58 @@ theorem map_visible_of_allR (hren : RenderInv) : ∀ {l l' : List (Except String
   | _, _, .nil => rfl
   | _, _, .cons h hs => by simp only [List.map_cons, visible_of_obsR hren h, map_visible_of_allR hren hs]
 
+/-! ### the renderer of results is invariant under the renaming -/
+
+mutual
+theorem renderObjW_ren (σ : Sh) (kS kT : Nat → String → String) (hk : ∀ e n, kS (sh σ e) n = kT e n) :
+    ∀ (v : Obj), renderObjW kS (ren σ v) = renderObjW kT v
+  | .ret v _ => by simp only [ren, renderObjW]; rw [renderObjW_ren σ kS kT hk v]
+  | .array els => by simp only [ren, renderObjW]; rw [renderListW_ren σ kS kT hk els]
+  | .map _ kvs => by simp only [ren, renderObjW]; rw [renderPairsW_ren σ kS kT hk kvs]
+  | .ref e n => by simp only [ren, renderObjW]; exact hk e n
+  | .func f => by simp only [ren, renderObjW, renFn]
+  | .null | .bool _ | .int _ | .float _ | .str _ | .ext _ | .error _ | .quote _ => by simp only [ren, renderObjW]
+theorem renderListW_ren (σ : Sh) (kS kT : Nat → String → String) (hk : ∀ e n, kS (sh σ e) n = kT e n) :
+    ∀ (l : List Obj), renderListW kS (renL σ l) = renderListW kT l
+  | [] => rfl
+  | x :: xs => by
+    simp only [renL, renderListW]; rw [renderObjW_ren σ kS kT hk x, renderListW_ren σ kS kT hk xs]
+theorem renderPairsW_ren (σ : Sh) (kS kT : Nat → String → String) (hk : ∀ e n, kS (sh σ e) n = kT e n) :
+    ∀ (l : List (Obj × Obj)), renderPairsW kS (renP σ l) = renderPairsW kT l
+  | [] => rfl
+  | (a, b) :: xs => by
+    simp only [renP, renderPairsW]
+    rw [renderObjW_ren σ kS kT hk a, renderObjW_ren σ kS kT hk b, renderPairsW_ren σ kS kT hk xs]
+end
+
+theorem renderFuel_ren (σ : Sh) {s t : St} (hR : StR σ s t) :
+    ∀ (fuel : Nat) (v : Obj), renderFuel s fuel (ren σ v) = renderFuel t fuel v
+  | 0, v => by
+    unfold renderFuel
+    exact renderObjW_ren σ _ _ (fun _ _ => rfl) v
+  | fuel + 1, v => by
+    unfold renderFuel
+    refine renderObjW_ren σ _ _ ?_ v
+    intro e n
+    cases hte : t.frames[e]? with
+    | none => rw [hR.none hte]
+    | some ft =>
+      obtain ⟨fs, hfs, hfr⟩ := hR.frames e ft hte
+      rw [hfs]
+      dsimp only
+      rw [hfr.store, lookupStore_ren]
+      cases lookupStore ft.store n with
+      | none => rfl
+      | some w => exact renderFuel_ren σ hR fuel w
+
+/-- **the renderer is invariant**: rendering a renamed value in the state of run S gives what rendering
+the value in the state of run T gives (functions render by their cache key, references as their target) -/
+theorem renderValue_ren (σ : Sh) {s t : St} (hR : StR σ s t) (v : Obj) :
+    renderValue s (ren σ v) = renderValue t v :=
+  renderFuel_ren σ hR 1000 v
+
+theorem renderInv : RenderInv := fun σ _ _ v hR => renderValue_ren σ hR v
+
 /-! ### C10 -/
 
 /-- the pointwise form: from the hypotheses of `C10.Statement`, every input of every continuation is
@@ -258,10 +310,13 @@ theorem statement_core (st : St) (f : Node) (o : InputObs) (ps : List Node)
     (runInputs (runInput st f).1 ps).map visible0 = (runInputs st ps).map visible0 :=
   map_visible0_of_allR (statement_pointwise st f o ps hreach htop hf hext hcache)
 
-/-- **C10.Statement**, given that the renderer of results is invariant under the renaming -/
+/-- `C10.Statement` from the invariance of the renderer (kept for reference; `renderInv` proves the hypothesis) -/
 theorem statement (hren : RenderInv) : C10.Statement := by
   intro st f o ps hreach htop hf _ _ hext hcache
   exact map_visible_of_allR hren (statement_pointwise st f o ps hreach htop hf hext hcache)
+
+/-- **C10, full strength, about the model** — no hypothesis -/
+theorem statement_full : C10.Statement := statement renderInv
 
 /-! ### non-vacuity: a failing input that allocates a frame -/
 
